@@ -94,8 +94,13 @@ class Rig:
                                                          ";".join(ws) if ws else "-")
 
     # ---- steps
-    def _outcome(self, t, pre_buf, pre_closed, what):
-        """canonical reply after thread t parked; oracle on the single step"""
+    def _outcome(self, t, pre_buf, pre_closed, what, n=None):
+        """canonical reply after thread t parked; oracle on the single step (n = size asked for by the read)"""
+        if what == "read":
+            self.asked = getattr(self, "asked", {})
+            self.asked[t.name] = n
+        elif what == "wake":
+            n = getattr(self, "asked", {}).get(t.name)
         if t.state == "cv":
             return "wait"
         if t.state != "idle":
@@ -103,10 +108,14 @@ class Rig:
         kind, val = t.result
         if kind == "ok":
             self.taken.append(val)
-            if what != "empty" and val == b"" and not (pre_closed and pre_buf == b""):
+            if what != "empty" and n is not None and len(val) > n:
+                self.problems.append(("read-returns-more-than-nbytes", "read(%d) returned %d bytes" % (n, len(val))))
+            if what != "empty" and n == 0:
+                pass        # a zero-sized read hands out nothing, whatever is buffered
+            elif what != "empty" and val == b"" and not (pre_closed and pre_buf == b""):
                 self.problems.append(("empty-read-while-open-or-data",
                                       "read returned b'' with closed=%s buffered=%s" % (pre_closed, pre_buf.hex())))
-            if what != "empty" and pre_buf != b"" and val == b"":
+            if what != "empty" and n != 0 and pre_buf != b"" and val == b"":
                 self.problems.append(("data-buffered-but-empty-result", pre_buf.hex()))
             return "data:" + hx(val)
         if isinstance(val, self.bpmod.PipeTimeout):
@@ -148,7 +157,7 @@ class Rig:
                 return
             tof = None if to is None else float(to)
             self.sched.begin(t, lambda: bp.read(n, tof))
-            self.impl.append(self._outcome(t, pre_buf, pre_closed, "read"))
+            self.impl.append(self._outcome(t, pre_buf, pre_closed, "read", n))
         elif k == "wake":
             _, tid, e = act
             self.reqs.append("wake %d %d" % (tid, e))
@@ -250,7 +259,7 @@ def gen_random_case(rng, rig, nsteps):
             rig.do(("feed", rng.randbytes(rng.choice([0, 1, 1, 2, 3, 5, 9]))))
         elif r < 0.86:
             tid = rng.choice(idle) if idle and rng.random() < 0.95 else rng.randrange(1, nthreads + 1)
-            n = rng.choice([1, 1, 2, 3, 4, 8, 100])
+            n = rng.choice([0, 1, 1, 2, 3, 4, 8, 100])
             to = rng.choice([None, None, 0, 0, 1, 3, 5, 5, 10, -1 if rng.random() < 0.2 else 7])
             rig.do(("read", tid, n, to))
         elif r < 0.92:
@@ -382,7 +391,7 @@ def lock_regions(bpmod):
 
 
 LINE_T1 = [("empty",), ("read", 2, None), ("read", 9, 5)]
-LINE_T2 = [("read", 1, 0), ("read", 2, None), ("empty",), ("close",)]
+LINE_T2 = [("read", 1, 0), ("read", 2, None), ("empty",), ("close",), ("read", 0, 0), ("read", 3, 5)]
 LINE_T3 = [("feed", b"xy"), ("feed", b""), ("close",)]
 
 
@@ -405,7 +414,7 @@ def line_level(ctx, bpmod, regions, cap):
     runs = []
     unprotected = {}
 
-    def execute(progs, start, prefix):
+    def execute(progs, start, prefix, gate=False):
         bp = bpmod.BufferedPipe()
         seq = [0]
         ops = []            # records: {"tid","op","acqs":[(seq, kind, elapsed)],"result":canonical or None}
@@ -423,9 +432,18 @@ def line_level(ctx, bpmod, regions, cap):
         cur["lock"] = lock
         for t in threads:
             t.clock = 0.0
+        if gate:
+            # an attached event whose set()/clear() are yield points: the caller parks there *holding the pipe lock*
+            bp.set_event(lib_coop.CoopEvent(sched))
         if start:
             bp.feed(start)
         pcs, wakes = [0, 0, 0], [0, 0, 0]
+
+        def nonempty():
+            try:
+                return len(bp._buffer_tobytes()) > 0
+            except Exception:
+                return len(bp._buffer) > 0
         avail, trace, depth = [], [], 0
 
         def settle(i):
@@ -453,6 +471,8 @@ def line_level(ctx, bpmod, regions, cap):
                 elif t.state == "cv":
                     if lock.owner is None and wakes[i] < 2:
                         ch += [(i, "wake", 0), (i, "wake", 5)]
+                elif sched.can_expire(t):
+                    ch.append((i, "expire", 0))     # a timed lock acquisition gives up; it cannot be granted now
                 elif sched.enabled(t):
                     ch.append((i, "step", 0))
             avail.append(ch)
@@ -468,7 +488,7 @@ def line_level(ctx, bpmod, regions, cap):
                 op = progs[i][pcs[i]]
                 pcs[i] += 1
                 wakes[i] = 0
-                rec = {"tid": i + 1, "op": op, "acqs": [], "result": None, "bytes": b""}
+                rec = {"tid": i + 1, "op": op, "acqs": [], "result": None, "bytes": b"", "samples": [nonempty()]}
                 ops.append(rec)
                 running[t.name] = rec
                 if op[0] == "feed":
@@ -485,8 +505,13 @@ def line_level(ctx, bpmod, regions, cap):
                 running[t.name]["next_kind"] = "wake"
                 running[t.name]["next_elapsed"] = e
                 sched.wake(t, float(e))
+            elif what == "expire":
+                sched.expire(t)
             else:
                 sched.step(t)
+            ne = nonempty()
+            for rec in running.values():
+                rec["samples"].append(ne)
             settle(i)
             depth += 1
             if depth > 200:
@@ -513,13 +538,14 @@ def line_level(ctx, bpmod, regions, cap):
                 if n > 50:
                     raise InfraError("C26 line-level: thread does not end")
             running.pop(t.name, None)
-        return {"progs": progs, "start": start, "trace": trace, "ops": ops, "final": final_buf}, avail
+        return {"progs": progs, "start": start, "trace": trace, "ops": ops, "final": final_buf, "gate": gate}, avail
 
     try:
-        scen = [(a, b, c, st) for a in LINE_T1 for b in LINE_T2 for c in LINE_T3 for st in (b"abc", b"")]
-        for a, b, c, st in scen:
+        scen = [(a, b, c, st, g) for g in (False, True) for a in LINE_T1 for b in LINE_T2 for c in LINE_T3
+                for st in (b"abc", b"")]
+        for a, b, c, st, g in scen:
             progs = [[a], [b], [c]]
-            res, avail = execute(progs, st, [])
+            res, avail = execute(progs, st, [], g)
             runs.append(res)
             n0 = len(runs)
             path = [x[0] for x in avail if x]
@@ -533,7 +559,7 @@ def line_level(ctx, bpmod, regions, cap):
                 if d < 0:
                     break
                 prefix = path[:d] + [avail[d][avail[d].index(tuple(path[d])) + 1]]
-                res, av2 = execute(progs, st, prefix)
+                res, av2 = execute(progs, st, prefix, g)
                 runs.append(res)
                 avail = avail[:d + 1] + av2[d + 1:]
                 path = prefix + [x[0] for x in av2[d + 1:] if x]
@@ -552,7 +578,15 @@ def line_level_evaluate(ctx, runs):
         fed = r["start"] + b"".join(o["op"][1] for o in feeds)
         taken = b"".join(o["bytes"] for o in takes)
         case = {"start": hx(r["start"]), "programs": [[list(hx(x) if isinstance(x, bytes) else x for x in op)
-                                                        for op in p] for p in r["progs"]], "schedule": r["trace"]}
+                                                        for op in p] for p in r["progs"]], "schedule": r["trace"],
+                "event-with-yielding-set/clear": r["gate"]}
+        for o in r["ops"]:
+            if o["op"][0] == "read" and o["result"] is not None:
+                if len(o["bytes"]) > o["op"][1]:
+                    ctx.fail("read-returns-more-than-nbytes", case, "read(%d) returned %d bytes" % (o["op"][1], len(o["bytes"])))
+                if o["result"] == "timeout" and o["samples"] and all(o["samples"]):
+                    ctx.fail(OLD_SIG, case, "T%d: %r raised PipeTimeout although data was buffered at every point of "
+                             "the call" % (o["tid"], o["op"]))
         parked = any(o["result"] is None for o in r["ops"])
         ctx.case(("line", case["start"], repr(case["programs"]), tuple(r["trace"])), len(r["trace"]) > 6)
         ctx.dist("case:line-level")
@@ -584,8 +618,9 @@ def line_level_evaluate(ctx, runs):
                     req = "close"
                 events.append((sq, req, reply))
         events.sort()
-        reqs = ["new"] + (["feed " + hx(r["start"])] if r["start"] else []) + [e[1] for e in events]
-        want = ["ok"] + (["ok"] if r["start"] else []) + [e[2] for e in events]
+        head = ["new"] + (["setevent"] if r["gate"] else []) + (["feed " + hx(r["start"])] if r["start"] else [])
+        reqs = head + [e[1] for e in events]
+        want = ["ok"] * len(head) + [e[2] for e in events]
         out.append((reqs, want, case))
     return out
 
@@ -694,7 +729,7 @@ def run(ctx):
         # ---- short sequential scenarios first (so that a sequential defect is reported with a minimal input):
         #      feed / partial read / empty / feed / read and variations
         for k1 in (3, 9, 17):
-            for n1 in (1, 2, 4):
+            for n1 in (0, 1, 2, 4, k1, k1 + 1):
                 for mid in ("empty", "read-all", "none"):
                     for k2 in (1, 3, 8):
                         rig = Rig(bpmod, 1)
